@@ -177,6 +177,18 @@ BUILT = {
         note='Trusted: TLC, numpy.linalg.lstsq conditioning at 1e-9. Bounded: <= 3 modes over 6/9 (12) samples with masks of <= 3 positions plus rank-deficient '
              'masks; coefficient vectors of length <= 6.',
         technique='TLA+ specs (ModalSum.tla data-structure and rank-guard laws, Clenshaw.tla sum machine) checked by TLC; emitted cases replayed into prysm.polynomials fast paths and lstsq'),
+    'C13': dict(
+        spec='Psd.tla',
+        text='Psd.tla computes |FFT(h w)|^2 of integer height maps and windows exactly (axis lengths of cyclotomic order dividing 4 or 6), lays it out on the '
+             'GridLib frequency axes (zero frequency at n div 2 on both axes), and defines band membership as an exact half-open predicate on fy^2+fx^2 and the '
+             'trapezoid weights explicitly. TLC checks Parseval (integral = window-weighted mean square), the DC position, Hermitian symmetry, additivity of '
+             'adjacent bands as a partition of the cells (hence quadrature additivity for the linear trapezoid rule), monotonicity under widening, and the '
+             'full-band bound against the rectangle rule. Replayed: interferogram.psd values and axes, Parseval on its output, bandlimited_rms for every pair of '
+             'band edges (frequencies and periods, edges on and off sample frequencies) against the exact rational, additivity and monotonicity on the '
+             'implementation\'s own numbers, the Interferogram methods, and render_synthetic_surface / render_from_psd (requested RMS over valid samples).',
+        note='Trusted: TLC, numpy. Bounded: shapes up to 6x3 (quick) / 6x6 with axis lengths in {1,2,3,4,6}; windows passed as arrays (Hann / Welch named windows are '
+             'conformed through the array path only); numpy >= 2 runtime (the only one installed).',
+        technique='TLA+ spec (Psd.tla: exact integer spectrum, band partition and trapezoid-weight laws) checked by TLC; emitted cases replayed into prysm.interferogram PSD routines'),
 }
 
 NOT_BUILT_REASON = 'not built yet in this round (specification planned in DESIGN.md section 4; never decided by another technique)'
